@@ -181,5 +181,55 @@ def evaluate(c):
             viol.append(('ALL-LISTING', '%s: load listing names %s (count %s), expected %s' % (opt, sorted(x[0] for x in imp), n, sorted(want))))
         canon.append('%s|%s' % (c['name'], opt))
         nontriv.append(True)
+    # --- distributed loads are "all pulses of the antenna / of an object" by construction: whole antenna, every object
+    # by tag, one object by tag. Each pulse with a conductor half on a loaded object is loaded exactly once per load kind
+    rmax = max(g.r_orig for g in m0.geo)
+    halves = {}
+    for p_ in m0.pulses:
+        for h in (0, 1):
+            if not p_.ground[h]:
+                halves.setdefault(p_.geo[h].tag, set()).add(p_.idx + 1)
+    dforms = [(['--skin-effect-conductivity=1e6'], nums, 1), (['--insulation-load=%r,2.5' % (3 * rmax)], nums, 1),
+              (['--skin-effect-conductivity=1e6', '--insulation-load=%r,2.5' % (3 * rmax)], nums, 2),
+              (['--skin-effect-conductivity=%g,%d' % (1e6 * (i + 1), t) for i, t in enumerate(tags)], nums, 1),
+              (['--insulation-load=%r,%g,%d' % (3 * rmax, 2.5 + i, t) for i, t in enumerate(tags)], nums, 1)]
+    for t in tags:
+        dforms.append((['--skin-effect-conductivity=1e6,%d' % t], sorted(halves.get(t, ())), 1))
+    for opts, want, kinds in dforms:
+        m, d = cli.build_main(base + ['--excitation-pulse=1'] + opts)
+        runs += 1
+        if m is None:
+            if want:
+                viol.append(('DIST-REJECTED', '%s: %s' % (opts, d)))
+            continue
+        import mininec.mininec as mm
+        for cls in (mm.Skin_Effect_Load, mm.Insulation_Load):
+            cnt = {}
+            for ld in m.loads:
+                if isinstance(ld, cls):
+                    for q in ld.pulses:
+                        cnt[q.idx + 1] = cnt.get(q.idx + 1, 0) + 1
+            if not cnt:
+                continue
+            # a junction pulse of two separately loaded objects is attached to both loads (each gives its own half);
+            # never more often than it has conductor halves on loaded objects, never twice to one load
+            for ld in m.loads:
+                if isinstance(ld, cls):
+                    ids = [q.idx + 1 for q in ld.pulses]
+                    if len(ids) != len(set(ids)):
+                        viol.append(('DIST-TWICE', '%s: a %s names a pulse more than once: %s' % (opts, cls.__name__, sorted(ids))))
+            if sorted(cnt) != sorted(want):
+                viol.append(('DIST-PULSES', '%s: %s attached to pulses %s, expected %s' % (opts, cls.__name__, sorted(cnt), sorted(want))))
+        # the diagonal shift of every pulse equals the sum over its conductor halves of the per-length value of the
+        # object the half lies on (per-object loads evaluated through the load object's own impedance for an
+        # interior pulse of that object is C08's business); here: listing names each wanted pulse once per kind
+        m.compute()
+        n, imp, lap = report.parse_loads(m.loads_as_mininec())
+        names = sorted(x[0] for x in imp)
+        exp = sorted(list(want) * kinds)
+        if names != exp:
+            viol.append(('DIST-LISTING', '%s: load listing names pulses %s, expected %s' % (opts, names, exp)))
+        canon.append('%s|%s' % (c['name'], '+'.join(o.split('=')[0][2:6] + o.split('=')[1][-2:] for o in opts)))
+        nontriv.append(True)
     return dict(viol=viol[:8], canon=canon, nontriv=nontriv, trans=runs, traces=len(canon), evals=runs, dev=0.0,
                 outcome='N=%d' % N)
